@@ -10,9 +10,34 @@ package auparse
 // offset is an index into the text after the header's closing parenthesis,
 // hence never beyond RawData (Data() relies on it).
 //
+// Positional well-formedness of "…audit(S.mmm:N)…": t[a] is the first '(',
+// t[b] the first '.' after it, t[c] the first ':' after that, t[d] the first ')'
+// after that, and the three runs in between are numbers in range.
+//@ spec noByte(t string, lo int, hi int, ch int) bool := forall j int :: lo <= j && j < hi ==> t[j] != ch
+//@ spec wfHeader(t string, a int, b int, c int, d int) bool := 0 <= a && a < b && b < c && c < d && d < len(t)
+//@   && t[a] == '(' && noByte(t, 0, a, '(') && t[b] == '.' && noByte(t, a, b, '.') && t[c] == ':' && noByte(t, b, c, ':') && t[d] == ')' && noByte(t, c, d, ')')
+//@   && strIsNum(t[a+1:b], 10, true) && -9223372036854775808 <= strIval(t[a+1:b], 10) && strIval(t[a+1:b], 10) <= 9223372036854775807
+//@   && strIsNum(t[b+1:c], 10, true) && -9223372036854775808 <= strIval(t[b+1:c], 10) && strIval(t[b+1:c], 10) <= 9223372036854775807
+//@   && strIsNum(t[c+1:d], 10, false) && 0 <= strUval(t[c+1:d], 10) && strUval(t[c+1:d], 10) < 4294967296
+
+//@ func auparse.parseAuditHeader
+//@ forall-params a int, b int, c int, d int
+//@ modifies alloc
+//@ ensures[C04] wfHeader(line, a, b, c, d) ==> isNil(result3) && result1 == strUval(line[c+1:d], 10) && result2 == d
+//@ ensures[C04] wfHeader(line, a, b, c, d) && -9223372036854 <= strIval(line[b+1:c], 10) && strIval(line[b+1:c], 10) <= 9223372036854 ==> result0 == timeUnix(strIval(line[a+1:b], 10), strIval(line[b+1:c], 10) * 1000000)
+//@ ensures[C05] isNil(result3) ==> 0 <= result2 && result2 < len(line)
+//@ ensures[C04] noByte(line, 0, len(line), '(') ==> !isNil(result3)
+//@ ensures[C04] noByte(line, 0, len(line), '.') ==> !isNil(result3)
+//@ ensures[C04] noByte(line, 0, len(line), ':') ==> !isNil(result3)
+//@ ensures[C04] noByte(line, 0, len(line), ')') ==> !isNil(result3)
+
 //@ func auparse.Parse
+//@ forall-params a int, b int, c int, d int
 //@ modifies alloc
 //@ ensures[C04] (result1 == nil) == (result0 != nil)
+//@ ensures[C04] wfHeader(trimSpace(message), a, b, c, d) ==> result1 == nil && result0.Sequence == strUval(trimSpace(message)[c+1:d], 10) && result0.RawData == trimSpace(message)
+//@ ensures[C04] wfHeader(trimSpace(message), a, b, c, d) && -9223372036854 <= strIval(trimSpace(message)[b+1:c], 10) && strIval(trimSpace(message)[b+1:c], 10) <= 9223372036854 ==> result0.Timestamp == timeUnix(strIval(trimSpace(message)[a+1:b], 10), strIval(trimSpace(message)[b+1:c], 10) * 1000000)
+//@ ensures[C04] noByte(trimSpace(message), 0, len(trimSpace(message)), '(') ==> result1 != nil
 //@ ensures[C04] result0 != nil ==> fresh(result0) && result0.RecordType == typ && result0.data == nil && isNil(result0.error)
 //@ ensures[C05] result0 != nil ==> -1 <= result0.offset && result0.offset <= len(result0.RawData)
 
@@ -25,3 +50,111 @@ package auparse
 //@ table[C20,C07] injective auparse.AuditArchNames
 //@ table[C20,C07] injective-nested auparse.AuditSyscalls
 //@ consts[C10,C20] auparse AUDIT_EOE=msgtype.AUDIT_EOE AUDIT_PROCTITLE=msgtype.AUDIT_PROCTITLE AUDIT_LAST_DAEMON=msgtype.AUDIT_LAST_DAEMON AUDIT_ANOM_LOGIN_FAILURES=msgtype.AUDIT_ANOM_LOGIN_FAILURES AUDIT_SYSCALL=msgtype.AUDIT_SYSCALL AUDIT_PATH=msgtype.AUDIT_PATH AUDIT_SOCKADDR=msgtype.AUDIT_SOCKADDR AUDIT_CWD=msgtype.AUDIT_CWD AUDIT_EXECVE=msgtype.AUDIT_EXECVE AUDIT_ADD_RULE=msgtype.AUDIT_ADD_RULE AUDIT_DEL_RULE=msgtype.AUDIT_DEL_RULE AUDIT_LIST_RULES=msgtype.AUDIT_LIST_RULES
+
+// ---------------------------------------------------------------------------
+// C05: the parser is total.
+//
+// extractKeyValuePairs is the only recursive function: it recurses on the value
+// of a msg='...' pair, which is a capture group of a match that also contains
+// "msg=", hence strictly shorter than the text it was found in.
+//@ func auparse.extractKeyValuePairs
+//@ decreases len(msg)
+//@ modifies alloc
+//@ ensures[C05] result0 != nil
+
+// Thin safety contracts (no preconditions: total for every input) that keep the
+// verification of Data() modular. Each function is verified on its own against
+// its contract, including all its panic-freedom obligations.
+//
+//@ func auparse.decodeUppercaseHexString
+//@ modifies alloc
+//@ ensures[C05] isNil(result1) ==> len(result0) == len(s) / 2
+//@ func auparse.hexToString
+//@ modifies alloc
+//@ func auparse.hexToStrings
+//@ modifies alloc
+//@ ensures[C05] isNil(result1) ==> len(result0) >= 1
+//@ func auparse.parseSockaddr
+//@ modifies alloc
+//@ ensures[C05] isNil(result1) ==> result0 != nil
+//@ func auparse.normalizeAuditMessage
+//@ modifies alloc
+//@ func (auparse.fieldMap).hexDecode
+//@ requires fm != nil
+//@ modifies mapOf(fm), alloc
+//@ func (auparse.fieldMap).execveArgs
+//@ requires fm != nil
+//@ modifies mapOf(fm), alloc
+//@ func (auparse.fieldMap).arch
+//@ requires fm != nil
+//@ modifies mapOf(fm), alloc
+//@ func (auparse.fieldMap).setSyscallName
+//@ requires fm != nil
+//@ modifies mapOf(fm), alloc
+//@ func (auparse.fieldMap).setSignalName
+//@ requires fm != nil
+//@ modifies mapOf(fm), alloc
+//@ func (auparse.fieldMap).saddr
+//@ requires fm != nil
+//@ modifies mapOf(fm), alloc
+//@ func (auparse.fieldMap).parseSELinuxContext
+//@ requires fm != nil
+//@ modifies mapOf(fm), alloc
+//@ func (auparse.fieldMap).result
+//@ requires fm != nil
+//@ modifies mapOf(fm), alloc
+//@ func (auparse.fieldMap).exit
+//@ requires fm != nil
+//@ modifies mapOf(fm), alloc
+//@ func (auparse.fieldMap).normalizeUnsetID
+//@ requires fm != nil
+//@ modifies mapOf(fm), alloc
+//@ func (*auparse.AuditMessage).auditRuleKeyNew
+//@ requires data != nil
+//@ modifies m.tags, mapOf(data), alloc
+//@ func (*auparse.AuditMessage).enrichData
+//@ requires data != nil
+//@ modifies m.tags, mapOf(data), alloc
+
+// Data(): parses once and caches; later calls return the cached pair and write nothing.
+//@ func (*auparse.AuditMessage).Data
+//@ requires -1 <= m.offset && m.offset <= len(m.RawData)
+//@ modifies m.data, m.error, m.tags, alloc
+//@ ensures[C05] m.data != nil || !isNil(m.error)
+//@ ensures[C05] result0 == m.data && result1 == m.error
+//@ ensures[C05] old(m.data != nil || !isNil(m.error)) ==> m.data == old(m.data) && m.error == old(m.error) && m.tags == old(m.tags)
+//@ ensures[C05] -1 <= m.offset && m.offset <= len(m.RawData)
+//@ func (*auparse.AuditMessage).Tags
+//@ requires -1 <= m.offset && m.offset <= len(m.RawData)
+//@ modifies m.data, m.error, m.tags, alloc
+//@ ensures[C05] old(m.data != nil || !isNil(m.error)) ==> result0 == old(m.tags) && result1 == old(m.error)
+//@ func (*auparse.AuditMessage).ToMapStr
+//@ requires -1 <= m.offset && m.offset <= len(m.RawData)
+//@ modifies m.data, m.error, m.tags, alloc
+//@ ensures[C05] result0 != nil
+//@ ensures[C04] "raw_msg" in result0 && typeIs(result0["raw_msg"], string) && payload(result0["raw_msg"]) == boxStr(m.RawData)
+//@ ensures[C04] "sequence" in result0 && typeIs(result0["sequence"], string) && payload(result0["sequence"]) == boxStr(strDec(m.Sequence))
+//@ ensures[C04] "@timestamp" in result0 && typeIs(result0["@timestamp"], string) && payload(result0["@timestamp"]) == boxStr(timeString(m.Timestamp))
+//@ ensures[C04] "record_type" in result0 && typeIs(result0["record_type"], string)
+//@ ensures[C04] !isNil(m.error) ==> "error" in result0
+// GetAuditMessageType: a known (upper-cased) name maps to its table entry.
+//@ func auparse.GetAuditMessageType
+//@ forall-params n uint16
+//@ modifies alloc
+//@ ensures[C04] name == "UNKNOWN[" ++ strDec(n) ++ "]" && !(name in auditMessageNameToType) ==> isNil(result1) && result0 == n
+//@ ensures[C04] toUpper(name) in auditMessageNameToType ==> isNil(result1) && result0 == auditMessageNameToType[toUpper(name)]
+
+// ParseLogLine: splits at the first "msg=" (position k, which leaves room for
+// "type=" and a blank), converts the type name and hands the rest to Parse:
+// both entry points agree because this IS a call of Parse.
+//@ spec isFirstMsg(t string, k int) bool := 0 <= k && k + 4 <= len(t) && t[k] == 'm' && t[k+1] == 's' && t[k+2] == 'g' && t[k+3] == '='
+//@   && (forall j int :: 0 <= j && j < k ==> !(t[j] == 'm' && t[j+1] == 's' && t[j+2] == 'g' && t[j+3] == '='))
+//@ func auparse.ParseLogLine
+//@ forall-params k int, a int, b int, c int, d int
+//@ modifies alloc
+//@ ensures[C04] (result1 == nil) == (result0 != nil)
+//@ ensures[C04] (forall j int :: 0 <= j && j + 4 <= len(line) ==> !(line[j] == 'm' && line[j+1] == 's' && line[j+2] == 'g' && line[j+3] == '=')) ==> result1 != nil
+//@ ensures[C04] isFirstMsg(line, k) && k < 6 ==> result1 != nil
+//@ ensures[C04] isFirstMsg(line, k) && k >= 6 && toUpper(line[5:k-1]) in auditMessageNameToType && result0 != nil ==> result0.RecordType == auditMessageNameToType[toUpper(line[5:k-1])]
+//@ ensures[C04] isFirstMsg(line, k) && k >= 6 && toUpper(line[5:k-1]) in auditMessageNameToType && wfHeader(trimSpace(line[k+4:]), a, b, c, d) ==> result1 == nil && result0.Sequence == strUval(trimSpace(line[k+4:])[c+1:d], 10) && result0.RawData == trimSpace(line[k+4:])
+//@ ensures[C05] result0 != nil ==> -1 <= result0.offset && result0.offset <= len(result0.RawData)
